@@ -94,6 +94,23 @@ var GNPool = []GNPoolEntry{
 	{"email-bad", func() *der.Node { return GNEmail("not-an-address") }},
 	{"email-angle", func() *der.Node { return GNEmail("<alice@example.com>") }},
 	{"email-empty", func() *der.Node { return GNEmail("") }},
+	{"email-quoted-space", func() *der.Node { return GNEmail("\"john doe\"@example.com") }},
+	{"email-space-local", func() *der.Node { return GNEmail("john doe@example.com") }},
+	{"email-space-domain", func() *der.Node { return GNEmail("alice@exa mple.com") }},
+	{"email-leading-space", func() *der.Node { return GNEmail(" alice@example.com") }},
+	{"email-trailing-space", func() *der.Node { return GNEmail("alice@example.com ") }},
+	{"email-quoted-at", func() *der.Node { return GNEmail("\"a@b\"@example.com") }},
+	{"email-quoted-then-space", func() *der.Node { return GNEmail("\"john\"@exa mple.com") }},
+	{"email-comment", func() *der.Node { return GNEmail("(comment)alice@example.com") }},
+	{"email-two-ats", func() *der.Node { return GNEmail("alice@@example.com") }},
+	{"email-ip-literal", func() *der.Node { return GNEmail("alice@[192.0.2.1]") }},
+	{"email-mailto", func() *der.Node { return GNEmail("mailto:alice@example.com") }},
+	{"email-list", func() *der.Node { return GNEmail("alice@example.com,bob@example.com") }},
+	{"email-display-name", func() *der.Node { return GNEmail("Alice Example <alice@example.com>") }},
+	{"email-upper", func() *der.Node { return GNEmail("ALICE@EXAMPLE.COM") }},
+	{"email-tab", func() *der.Node { return GNEmail("alice\t@example.com") }},
+	{"email-no-domain", func() *der.Node { return GNEmail("alice@") }},
+	{"email-no-local", func() *der.Node { return GNEmail("@example.com") }},
 	{"email-non-ia5", func() *der.Node { return der.CtxPrim(1, []byte("al\xefce@example.com")) }},
 	{"uri-good", func() *der.Node { return GNURI("https://www.example.com/path") }},
 	{"uri-noscheme", func() *der.Node { return GNURI("www.example.com/path") }},
